@@ -924,6 +924,27 @@ pub fn fd_table(pid: Pid) -> String {
 
 pub fn reset_fd_ids() {}
 
+/// The descriptors of a virtual process whose open file description is in non-blocking mode.
+pub fn nonblocking_fds(pid: Pid) -> String {
+    VSTATE.with(|s| {
+        let s = s.borrow();
+        let Some(state) = s.as_ref() else {
+            return String::new();
+        };
+        let st = state.borrow();
+        let Some(p) = st.processes.get(&pid) else {
+            return String::new();
+        };
+        let v: Vec<String> = p
+            .fds()
+            .iter()
+            .filter(|(_, b)| b.open_file_description.borrow().is_nonblocking())
+            .map(|(fd, _)| fd.0.to_string())
+            .collect();
+        v.join(",")
+    })
+}
+
 /// Deep snapshot of the observable shell state, one canonical string per facet.
 pub fn snapshot(env: &mut Env<VS>) -> BTreeMap<String, String> {
     use yash_env::system::GetPid as _;
@@ -989,6 +1010,7 @@ pub fn snapshot(env: &mut Env<VS>) -> BTreeMap<String, String> {
     env.system.umask(mask);
     m.insert("umask".into(), format!("{:o}", mask.bits()));
     m.insert("fds".into(), fd_table(env.system.getpid()));
+    m.insert("fd_modes".into(), nonblocking_fds(env.system.getpid()));
     // signal dispositions and mask as the kernel holds them
     let pid = env.system.getpid();
     VSTATE.with(|s| {
